@@ -229,7 +229,11 @@ class StreamReaderBufferedProtocol(asyncio.BufferedProtocol):
 
     def get_buffer(self, sizehint: int) -> WriteableBuffer:
         if (external_buffer_view := self.__external_buffer_view) is not None:
-            return external_buffer_view
+            if (waiter := self.__read_waiter) is not None and not waiter.done():
+                return external_buffer_view
+            # The reader has been cancelled but its task did not run yet (its cleanup is deferred to the next loop iteration).
+            # Nobody would be told about the bytes written in its buffer: use the internal buffer instead.
+            self.__external_buffer_view = None
         # Ignore sizehint, the buffer is already at its maximum size.
         # Returns unused buffer part
         if self.__buffer is None:
@@ -343,6 +347,10 @@ class StreamReaderBufferedProtocol(asyncio.BufferedProtocol):
                 self.__external_buffer_view = external_buffer
                 try:
                     nbytes_written_in_external_buffer = await self.__read_waiter
+                except asyncio.CancelledError:
+                    if external_buffer is not None:
+                        self.__keep_data_of_cancelled_reader(self.__read_waiter, external_buffer)
+                    raise
                 finally:
                     self.__external_buffer_view = None
         finally:
@@ -351,6 +359,30 @@ class StreamReaderBufferedProtocol(asyncio.BufferedProtocol):
         if nbytes_written_in_external_buffer is None:
             self._check_for_connection_lost()
         return nbytes_written_in_external_buffer
+
+    def __keep_data_of_cancelled_reader(self, waiter: asyncio.Future[int | None], external_buffer: WriteableBuffer) -> None:
+        # The task has been cancelled after buffer_updated() gave a result to the waiter (in the same loop iteration):
+        # the bytes are already in the caller's buffer but the caller will never know. Put them back in front of our own buffer.
+        if waiter.cancelled() or not waiter.done() or waiter.exception() is not None:
+            return
+        if not (nbytes := waiter.result()):
+            return
+        if self.__buffer is None:
+            # connection_lost() already dropped the buffer: do as if these bytes were in it at that time.
+            if self.__connection_lost_exception is None:
+                self.__connection_lost_exception = _utils.error_from_errno(_errno.ECONNRESET)
+            return
+        nbytes_written = self.__buffer_nbytes_written
+        if nbytes_written + nbytes > self.__buffer_view.nbytes:
+            # Unlikely: the caller's buffer was larger than the free space of ours.
+            self.__buffer_view.release()
+            self.__buffer.extend(bytes(nbytes_written + nbytes - len(self.__buffer)))
+            self.__buffer_view = memoryview(self.__buffer)
+        with memoryview(external_buffer) as external_buffer_view:
+            self.__buffer_view[nbytes : nbytes + nbytes_written] = self.__buffer_view[:nbytes_written]
+            self.__buffer_view[:nbytes] = external_buffer_view[:nbytes]
+        self.__buffer_nbytes_written = nbytes_written + nbytes
+        self._maybe_pause_transport()
 
     def _read_waiter_fut(self, set_result_cb: Callable[[asyncio.Future[int | None]], None]) -> None:
         if (waiter := self.__read_waiter) is not None:
